@@ -207,6 +207,16 @@ fn main() {
             }
             eprintln!("variant {} done ok={} err={}", variant, n_ok, n_err);
         }
+        "exp2" => {
+            // experiment: acceptance of libdeflate streams over a plaintext file, per level
+            let p = std::fs::read(&argv[2]).unwrap();
+            for level in 0..=12 {
+                if let Some(d) = comp::libdeflate_raw(&p, level) {
+                    let a = api::cur::analyze(&d, true);
+                    eprintln!("libdeflate level {:2}: {} bytes -> {} {}", level, d.len(), a.kind(), a.as_ok().map(|x| x.params.chars().take(0).collect::<String>() + &format!("corr {}", x.corr.len())).unwrap_or_default());
+                }
+            }
+        }
         "corpus" => {
             // seed corpus for the coverage-guided stage: small streams and files from the generators
             let dir = argv[2].clone();
